@@ -8,10 +8,19 @@ package main
 import (
 	"bytes"
 	"context"
+	"crypto/ecdsa"
+	"crypto/elliptic"
+	"crypto/rand"
 	"crypto/sha256"
+	"crypto/tls"
+	"crypto/x509"
+	"crypto/x509/pkix"
 	"encoding/json"
+	"encoding/pem"
 	"fmt"
 	"io"
+	"log"
+	"math/big"
 	"net"
 	"net/http"
 	"os"
@@ -27,25 +36,30 @@ import (
 
 func init() {
 	domains["remote"] = domain{runRemote,
-		"a case is a sequence (≤5 quick, ≤8 thorough) of invocations of the task binary on a remote Taskfile served by a " +
-			"loopback server the harness owns: per step the server serves version k / refuses (listener closed) / resets / " +
-			"404 / 500 / HEAD-ok-GET-500 / foreign content type / stalls past --timeout 300ms (on HEAD or on GET), the flags " +
-			"--yes --download --offline --expiry 0|1h --insecure --timeout 300ms|10s --clear-cache vary, the cache is aged by 2h, " +
-			"the prompt is answered y/yes/n/… through a pty or there is no terminal, root entrypoint or include, two http URLs " +
-			"on different paths, one https URL, and three http URLs that differ from the first only in the query (?v=2), in the letter " +
-			"case of the path, in a doubled slash (each served its own content; successive steps of a sequence share the cache directory, " +
-			"so a cache entry shared by two URLs shows as foreign content, a false 'has changed' prompt or a missing entry), experiment on/off; observed: exit code, which version's marker ran, cache files (content version, " +
-			"stored checksum, timestamp present) of every URL — compared with Remote.invoke over the same sequence; plus the " +
-			"property monitor (a marker ran ⇒ that version was offered under --yes or an accepted prompt at or before the step). " +
-			"Second stream (op remote.chain, 250 quick / 3000 thorough sequences): CHAINS — per sequence A and B are the two paths, or (37%) " +
-			"two URLs of one path that differ only in the query; A's served content (number v+10k) includes B by a relative (k=1,2,5) or " +
-			"absolute (k=3,4,6) http reference, " +
-			"rarely itself (cycle, 110) or nothing; A's probe task calls B's; per step the server behaves independently for A and for B " +
-			"(serve version / reset / 404 / 500 / GET-500 / foreign content type / stall on HEAD or GET; refuse = listener closed for both), " +
-			"both are read under the ONE --timeout 300ms|10s of the invocation (A stalling uses it up before B's read starts), flags as " +
-			"above, prompts answered per URL through the pty (A's and B's answers vary independently), root or include-of-local-root; " +
-			"most sequences first download and approve both; at most 150 (quick) steps with a stall past the timeout; compared with " +
-			"Chain.invokeChain (exit code, markers of A and of B that ran, cache files of every URL) plus the same trust monitor for both. " +
+		"a case is a sequence (≤5 quick, ≤8 thorough) of invocations of the task binary on a remote Taskfile served by loopback " +
+			"servers the harness owns (plain http, TLS with a generated certificate handed over as SSL_CERT_FILE, and a listener that " +
+			"accepts and never answers): per step the server serves version k / refuses (listeners closed) / resets / 404 / 500 / " +
+			"HEAD-ok-GET-500 / foreign content type / stalls past --timeout 300ms (on HEAD or on GET) / (TLS URL) redirects to plain http " +
+			"or to https; the flags --yes --download --offline --expiry 0|1h --insecure --timeout 300ms|10s --clear-cache vary, the cache " +
+			"is aged by 2h, the prompt is answered y/yes/n/… through a pty or there is no terminal, root entrypoint or include; URLs: two " +
+			"http paths, https on the plain port (always fails), three http URLs that differ from the first only in the query / letter " +
+			"case / a doubled slash, https on the TLS port, a DIRECTORY-style URL /dd (HEAD 404 or octet-stream, the Taskfile under one " +
+			"of three default names), its sibling /dd/inc.yml and /inc.yml (what './inc.yml' means from /dd/<name> and from /dd); before a " +
+			"step the cache may be DAMAGED (the .yaml swapped for another version / truncated / removed) or TORN (the .checksum, " +
+			".timestamp, .location of a killed approving invocation written without the .yaml), and the step itself may run under a " +
+			"FILE-SIZE LIMIT (ulimit -f 1: the binary's own WriteChecksum / WriteTimestamp / WriteResolvedLocation succeed, its write of " +
+			"the longer .yaml fails like on a full disk - a real failure between the cache writes); observed: exit code, which versions' " +
+			"markers ran (trace file), cache files (content version, stored checksum, timestamp present, stored location) of every URL — " +
+			"compared with Remote.invoke over the same sequence; plus the property monitor (a marker ran ⇒ that version was offered " +
+			"under --yes or an accepted prompt at or before the step). Second stream (op remote.chain, 250 quick / 3000 thorough " +
+			"sequences): CHAINS — A and B are two paths, two URLs of one path that differ only in the query, or (35%) the directory URL " +
+			"/dd and /dd/inc.yml; A's content (number v+10k) includes B by a relative or an absolute reference ('./inc.yml' for /dd), rarely " +
+			"itself (110) or nothing; A's probe calls B's; the server behaves independently for A and B, both are read under the ONE " +
+			"--timeout, prompts answered per URL through the pty, A read online, --offline, with the server down, with a valid cache, " +
+			"with damaged entries. Third stream (op remote.tree, 120 / 1500): TREES — A includes B and C (siblings: two goroutines, " +
+			"promptMutex) or A includes B includes C (chain of three); three independent servers and answers; when several nodes fail " +
+			"the exit status the binary reported is handed to the model as the environment's choice. Fourth (10 / 60): a GIT node whose " +
+			"server never answers, under --timeout 300ms: must end (108 / 105 / 106), a hang is a verdict. " +
 			"non-trivial = a step gets past the flag/scheme gate; distinct by model case line"}
 }
 
@@ -69,34 +83,80 @@ type remStep struct {
 	// chains (remCase.Chain): the content served for this step's URL is number V+10*Inc and includes
 	// (Inc 1,3: URL 0; Inc 2,4: URL 1; 1,2 by a relative, 3,4 by an absolute reference) the other http URL,
 	// for which the server behaves as Server2/V2 and whose prompt is answered Answer2/Text2
+	// URL 7 (directory-style): which default Taskfile name answers (0 Taskfile.yml, 1 taskfile.yml, 2 Taskfile.yaml)
+	// and what a HEAD on the directory URL itself gets ("" = 404, "ctype" = 200 with a foreign content type)
+	DirName int    `json:"dir_name,omitempty"`
+	DirHead string `json:"dir_head,omitempty"`
+	// what happens to the cache files of URL PreURL before the step (after the ageing): "" nothing; "swap": the .yaml is
+	// replaced by content number PreV of that URL; "trunc": … by an empty file; "rm": it is removed; "torn1": an invocation
+	// that downloaded content PreV under --yes was killed after WriteChecksum (the harness writes that .checksum);
+	// "torn2": … after WriteTimestamp; "torn3": … after WriteResolvedLocation
+	Pre    string `json:"pre,omitempty"`
+	PreURL int    `json:"pre_url,omitempty"`
+	PreV   int    `json:"pre_v,omitempty"`
+	// the binary runs under `ulimit -f 1` (512 bytes): WriteChecksum, WriteTimestamp and WriteResolvedLocation succeed, the
+	// write of the (longer) .yaml fails like on a full disk — a REAL failure between the cache writes
+	Limited bool `json:"limited,omitempty"`
 	Inc     int    `json:"inc,omitempty"`
 	Server2 string `json:"server2,omitempty"`
 	V2      int    `json:"v2,omitempty"`
 	Answer2 string `json:"answer2,omitempty"`
 	Text2   string `json:"text2,omitempty"`
+	// trees (remCase.Tree): the step reads A = URL 0; Inc 9: A includes B = URL 1 AND C = URL 3 (siblings, read
+	// concurrently); Inc 4: A includes B only, and B's content (number V2+10*Inc2, Inc2 = 6) may include C — a chain
+	// of three; the server behaves as Server2/V2 for B and as Server3/V3 for C, whose prompt is answered Answer3/Text3
+	Inc2    int    `json:"inc2,omitempty"`
+	Server3 string `json:"server3,omitempty"`
+	V3      int    `json:"v3,omitempty"`
+	Answer3 string `json:"answer3,omitempty"`
+	Text3   string `json:"text3,omitempty"`
 }
+
+// the TLS listener logs every failed handshake (URL 2 never shows up there, but a binary that does not trust the
+// certificate would): not to the harness's stderr
+var remQuietLog = log.New(io.Discard, "", 0)
 
 type remCase struct {
 	Steps []remStep `json:"steps"`
 	Chain bool      `json:"chain,omitempty"` // model op remote.chain; prompts answered per URL
+	Tree  bool      `json:"tree,omitempty"`  // model op remote.tree: siblings and chains of three; prompts answered per URL
 }
 
 // URL ids (the model's abstract, pairwise distinct cache keys): 0 http /aa/Taskfile.yml, 1 http /bb/Taskfile.yml,
-// 2 https /aa/Taskfile.yml (TLS to a plain-http server: always fails), and three URLs that differ from URL 0 only
-// 3 in the query (?v=2), 4 in the letter case of the path, 5 in a doubled slash.  Every http URL is served its
-// own content (the marker names the URL), so two URLs sharing one cache entry show as a foreign content or prompt.
-const remURLs = 6
+// 2 https /aa/Taskfile.yml on the plain-http port (TLS to a plain-http server: always fails), three URLs that differ from
+// URL 0 only 3 in the query (?v=2), 4 in the letter case of the path, 5 in a doubled slash; 6 https /tt/Taskfile.yml on
+// the TLS port (a real TLS server with a certificate the harness generates and hands to the binary as SSL_CERT_FILE),
+// which serves, or redirects to plain http (/tr/Taskfile.yml on the http port) or to https (/ts/Taskfile.yml on the TLS
+// port); 7 http /dd — a DIRECTORY-style URL: HEAD on it is 404 or a foreign content type, the Taskfile is under one of the
+// default names /dd/Taskfile.yml | taskfile.yml | Taskfile.yaml (model URLs 10, 11, 12: locations, never cache keys);
+// 8 http /dd/inc.yml — what `./inc.yml` in URL 7's Taskfile means; 9 http /inc.yml — what it means when resolved against
+// /dd itself.  Every URL is served its own content (the marker names the URL), so two URLs sharing one cache entry, or an
+// include resolved to the wrong file, show as foreign content.
+const remURLs = 10
 const remStallDelay = 1200 * time.Millisecond
 
-var remPaths = []string{"/aa/Taskfile.yml", "/bb/Taskfile.yml", "/aa/Taskfile.yml", "/aa/Taskfile.yml?v=2", "/aa/taskfile.yml", "/aa//Taskfile.yml"}
+// remGitURL, remGitProtoURL: the model ids of the git nodes (http://127.0.0.1:<blackhole>/r.git//Taskfile.yml and the same
+// over the git protocol, git://…); not among the listed entries
+const remGitURL = 16
+const remGitProtoURL = 17
 
-// remHTTP: the URL ids the loopback server answers
-var remHTTP = []int{0, 1, 3, 4, 5}
+func remIsGit(u int) bool { return u == remGitURL || u == remGitProtoURL }
+
+var remPaths = []string{"/aa/Taskfile.yml", "/bb/Taskfile.yml", "/aa/Taskfile.yml", "/aa/Taskfile.yml?v=2", "/aa/taskfile.yml", "/aa//Taskfile.yml",
+	"/tt/Taskfile.yml", "/dd", "/dd/inc.yml", "/inc.yml"}
+
+// remDirNames: the default names the directory URL 7 is served under (indices into taskfile.defaultTaskfiles)
+var remDirNames = []string{"Taskfile.yml", "taskfile.yml", "Taskfile.yaml"}
+
+// remHTTP: the URL ids the loopback servers answer
+var remHTTP = []int{0, 1, 3, 4, 5, 6, 7, 8, 9}
 
 // remIncTable: k = c/10 of a content number → (included URL, absolute reference?)
-var remIncTable = map[int][2]int{1: {0, 0}, 2: {1, 0}, 3: {0, 1}, 4: {1, 1}, 5: {3, 0}, 6: {3, 1}}
+var remIncTable = map[int][2]int{1: {0, 0}, 2: {1, 0}, 3: {0, 1}, 4: {1, 1}, 5: {3, 0}, 6: {3, 1}, 7: {8, 0}, 8: {8, 1}}
 
-// remIncFor: the k of a content that includes URL `target` (0, 1 or 3) by a relative or an absolute reference
+const remMaxContent = 99
+
+// remIncFor: the k of a content that includes URL `target` (0, 1, 3 or 8) by a relative or an absolute reference
 func remIncFor(target int, abs bool) int {
 	for k, e := range remIncTable {
 		if e[0] == target && (e[1] == 1) == abs {
@@ -106,34 +166,70 @@ func remIncFor(target int, abs bool) int {
 	return 0
 }
 
-// remOwner: which http URL a request is for — exactly (`exact`), or as that URL with a default Taskfile name
-// appended to its path by RemoteExists (`owner`)
-func remOwner(r *http.Request) (exact, owner int) {
-	exact, owner = -1, -1
-	for _, i := range remHTTP {
-		p, q, _ := strings.Cut(remPaths[i], "?")
+// remOwner: which URL a request is for — exactly (`exact`), or as that URL with default Taskfile names appended to its
+// path by RemoteExists (`owner`, the longest matching URL path); `name` = for a request directly under the directory URL 7
+// the index of the default name asked for (-1: none of remDirNames); tls = the request came in over the TLS listener
+func remOwner(r *http.Request, tls bool) (exact, owner, name int) {
+	exact, owner, name = -1, -1, -1
+	best := -1
+	try := func(i int, p, q string) {
 		if r.URL.RawQuery != q {
-			continue
+			return
 		}
 		if r.URL.Path == p {
-			exact, owner = i, i
-		} else if strings.HasPrefix(r.URL.Path, p+"/") && owner < 0 {
-			owner = i
+			exact, owner, best = i, i, 1<<30
+		} else if strings.HasPrefix(r.URL.Path, p+"/") && len(p) > best {
+			owner, best = i, len(p)
+		}
+	}
+	if tls {
+		try(6, "/tt/Taskfile.yml", "")
+		try(6, "/ts/Taskfile.yml", "")
+		return
+	}
+	for _, i := range remHTTP {
+		if i == 6 {
+			continue
+		}
+		p, q, _ := strings.Cut(remPaths[i], "?")
+		try(i, p, q)
+	}
+	try(6, "/tr/Taskfile.yml", "")
+	if owner == 7 && exact < 0 {
+		for j, n := range remDirNames {
+			if r.URL.Path == "/dd/"+n {
+				name = j
+			}
 		}
 	}
 	return
 }
 
 // remContent: content number c = v + 10k of URL u; k = 0 is the plain Taskfile; otherwise it includes the URL
-// remIncTable[k] names (k = 1,3: URL 0; 2,4: URL 1; 5,6: URL 3; odd-even pairs 1,2,5 relative, 3,4,6 absolute — needs the port)
+// remIncTable[k] names (1,2,5,7 by a relative reference, 3,4,6,8 by an absolute one — needs the port); k = 7 is `./inc.yml`
+// remPad: every Taskfile the harness serves starts with more than 512 bytes of comments, so that under `ulimit -f 1`
+// the write of the .yaml fails (and what is left of it is not a Taskfile)
+var remPad = strings.Repeat("# "+strings.Repeat("padding ", 7)+"\n", 10)
+
 func remContent(u, c, port int) []byte {
+	return append([]byte(remPad), remContentBody(u, c, port)...)
+}
+
+func remContentBody(u, c, port int) []byte {
 	k := c / 10
+	if k == 9 { // two remote includes (siblings): URL 1 and URL 3
+		return []byte(fmt.Sprintf("version: '3'\nsilent: true\nincludes:\n  b: http://127.0.0.1:%d%s\n  c: http://127.0.0.1:%d%s\ntasks:\n  probe:\n    cmds:\n      - echo u%dv%d >> \"$VERIF_TRACE\"\n      - task: b:probe\n      - task: c:probe\n",
+			port, remPaths[1], port, remPaths[3], u, c))
+	}
 	inc, ok := remIncTable[k]
 	if !ok {
 		return []byte(fmt.Sprintf("version: '3'\nsilent: true\ntasks:\n  probe:\n    cmds:\n      - echo u%dv%d >> \"$VERIF_TRACE\"\n", u, c))
 	}
 	target := inc[0]
 	ref := "../" + strings.TrimPrefix(remPaths[target], "/")
+	if k == 7 {
+		ref = "./inc.yml"
+	}
 	if inc[1] == 1 {
 		ref = fmt.Sprintf("http://127.0.0.1:%d%s", port, remPaths[target])
 	}
@@ -163,11 +259,47 @@ func (s remStep) norm() remStep {
 	if s.Age != 0 {
 		s.Age = 2
 	}
-	if s.URL < 0 || s.URL >= remURLs {
+	if (s.URL < 0 || s.URL >= remURLs) && !remIsGit(s.URL) {
 		s.URL = 0
 	}
 	if s.V < 1 {
 		s.V = 1
+	}
+	if s.URL != 6 && (s.Server == "redirect" || s.Server == "redirects") { // only the TLS server redirects
+		s.Server = "serve"
+	}
+	if s.URL != 7 {
+		s.DirName, s.DirHead = 0, ""
+	} else {
+		if s.DirName < 0 || s.DirName >= len(remDirNames) {
+			s.DirName = 0
+		}
+		if s.DirHead != "ctype" {
+			s.DirHead = ""
+		}
+	}
+	if remIsGit(s.URL) { // a git node: the harness has no git server, only a listener that never answers
+		s.Via, s.Inc, s.Pre, s.Age, s.Patient, s.Clear, s.Download, s.Server2 = "root", 0, "", 0, false, false, false, ""
+		s.Server = "stall"
+	}
+	if remIsGit(s.URL) || s.Server2 != "" {
+		s.Limited = false
+	}
+	switch s.Pre {
+	case "swap", "torn1", "torn2", "torn3":
+		if s.PreV < 1 || s.PreV > remMaxContent || s.PreV%10 == 0 {
+			s.PreV = 1
+		}
+	case "trunc", "rm":
+		s.PreV = 0
+	default:
+		s.Pre, s.PreV, s.PreURL = "", 0, 0
+	}
+	if s.PreURL < 0 || s.PreURL >= remURLs || s.PreURL == 2 {
+		s.PreURL = 0
+	}
+	if s.Pre == "torn3" && s.PreURL == 7 { // the location the killed invocation stored is the URL itself: not for the directory URL
+		s.Pre = "torn2"
 	}
 	if s.Via != "include" {
 		s.Via = "root"
@@ -181,8 +313,40 @@ func (s remStep) norm() remStep {
 	default:
 		s.Answer = "none"
 	}
-	if _, ok := remIncTable[s.Inc]; !ok {
-		s.Inc = 0
+	if s.Server3 != "" { // a tree step: reads A = URL 0
+		s.URL, s.DirName, s.DirHead = 0, 0, ""
+		if s.Inc != 0 && s.Inc != 3 && s.Inc != 4 && s.Inc != 9 {
+			s.Inc = 9
+		}
+		if s.Inc2 != 6 || s.Inc != 4 { // B includes C only in a chain (no diamonds)
+			s.Inc2 = 0
+		}
+		if s.Server2 == "" {
+			s.Server2 = "serve"
+		}
+		if s.V3 < 1 {
+			s.V3 = 1
+		}
+		if s.Server == "refuse" {
+			s.Server3 = "refuse"
+		} else if s.Server3 == "refuse" {
+			s.Server3 = "reset"
+		}
+		switch {
+		case s.Answer != "accept" && s.Answer != "decline":
+			s.Answer3, s.Text3 = "none", ""
+		case s.Answer3 == "accept":
+			if s.Text3 == "" {
+				s.Text3 = "y"
+			}
+		default:
+			s.Answer3 = "decline"
+		}
+	} else {
+		s.Inc2, s.V3, s.Answer3, s.Text3 = 0, 0, "", ""
+		if _, ok := remIncTable[s.Inc]; !ok {
+			s.Inc = 0
+		}
 	}
 	if s.Server2 != "" {
 		if s.V2 < 1 {
@@ -210,7 +374,9 @@ func (s remStep) norm() remStep {
 }
 
 func (s remStep) stalls() bool  { return s.Server == "stall" || s.Server == "stallget" }
-func (s remStep) stalls2() bool { return s.Server2 == "stall" || s.Server2 == "stallget" }
+func (s remStep) stalls2() bool {
+	return s.Server2 == "stall" || s.Server2 == "stallget" || s.Server3 == "stall" || s.Server3 == "stallget"
+}
 
 // c1: the content number the server offers for the step's own URL
 func (s remStep) c1() int { return s.V + 10*s.Inc }
@@ -223,39 +389,62 @@ func remCu(u int) int {
 	return u
 }
 
-func remServerTokens(kind string, v int) (sk, sa int) {
+// remServerTok: the model's server token for URL u behaving as `kind` with content number c
+func remServerTok(u int, kind string, c int, s remStep) string {
+	base := "f0"
 	switch kind {
-	case "serve":
-		return 0, v
+	case "serve", "redirect", "redirects":
+		base = fmt.Sprintf("s%d", c)
 	case "stall", "stallget":
-		return 2, v
+		base = fmt.Sprintf("w%d", c)
 	case "refuse", "reset":
-		return 1, 0
-	case "404", "500", "ctype":
-		return 1, 1
+		base = "f0"
+	case "404", "500":
+		base = "f1"
+	case "ctype": // a foreign content type on HEAD: not a Taskfile, and no default name under it answers
+		base = "f1"
+		if u == 7 { // … but the content type of a default name under a directory URL is not looked at
+			base = fmt.Sprintf("s%d", c)
+		}
 	case "get500":
-		return 1, 2
+		base = "f2"
 	}
-	return 1, 0
+	switch {
+	case u == 2: // TLS handshake with a plain-http server (or no server): the fetch fails
+		return "f0"
+	case remIsGit(u): // the clone never gets an answer
+		return base
+	case u == 6 && kind == "redirect":
+		return "r13.0:" + base
+	case u == 6 && kind == "redirects":
+		return "r14.1:" + base
+	case u == 7:
+		return fmt.Sprintf("d%d.0:%s", 10+s.DirName, base)
+	}
+	return base
 }
 
-func remCaseLine(d remCase) string {
+func remHTTPS(u int) bool { return u == 2 || u == 6 }
+
+// remCaseLine: the line for the model driver; `picks` (trees only) = per step the exit status the binary ended with —
+// when several siblings fail, errgroup reports the one that failed first in real time: the environment's choice
+func remCaseLine(d remCase, picks []int) string {
 	var sb strings.Builder
 	op := "remote.run"
 	if d.Chain {
 		op = "remote.chain"
 	}
+	if d.Tree {
+		op = "remote.tree"
+	}
 	fmt.Fprintf(&sb, "%s %d %d", op, remURLs, len(d.Steps))
 	answers := map[string]int{"accept": 0, "decline": 1, "none": 2}
-	for _, s := range d.Steps {
+	pres := map[string]int{"": 0, "swap": 1, "trunc": 1, "rm": 2, "torn1": 3, "torn2": 4, "torn3": 5}
+	for i, s := range d.Steps {
 		s = s.norm()
-		sk, sa := remServerTokens(s.Server, s.c1())
-		if s.URL == 2 { // TLS handshake with a plain-http server (or no server): the fetch fails
-			sk, sa = 1, 0
-		}
-		fmt.Fprintf(&sb, " %d %d %s %s %s %s %s %d %s %s %s %d %d %d", s.Age, s.URL, b2s(s.URL == 2),
+		fmt.Fprintf(&sb, " %d %d %s %s %s %s %s %d %s %s %s %s %d", s.Age, s.URL, b2s(remHTTPS(s.URL)),
 			b2s(s.Yes), b2s(s.Download), b2s(s.Offline), b2s(s.Insecure), s.Expiry, b2s(s.Patient), b2s(s.Clear),
-			b2s(!s.NoExp), sk, sa, answers[s.Answer])
+			b2s(!s.NoExp), remServerTok(s.URL, s.Server, s.c1(), s), answers[s.Answer])
 		if d.Chain {
 			k2, v2, a2 := s.Server2, s.V2, s.Answer2
 			if k2 == "" { // a step without an own description of node 2: the server treats every URL alike
@@ -264,109 +453,198 @@ func remCaseLine(d remCase) string {
 					a2 = "decline"
 				}
 			}
-			sk2, sa2 := remServerTokens(k2, v2)
-			fmt.Fprintf(&sb, " %d %d %d", sk2, sa2, answers[a2])
+			// node 2 is one of the plain URLs (0, 1, 3, 8): its token does not depend on which
+			fmt.Fprintf(&sb, " %s %d", remServerTok(0, k2, v2, s), answers[a2])
 		}
+		if d.Tree {
+			pick := 0
+			if i < len(picks) {
+				pick = picks[i]
+			}
+			fmt.Fprintf(&sb, " %s %d %s %d %d", remServerTok(1, s.Server2, s.V2+10*s.Inc2, s), answers[s.Answer2],
+				remServerTok(3, s.Server3, s.V3, s), answers[s.Answer3], pick)
+		}
+		fmt.Fprintf(&sb, " %d %d %d %s", pres[s.Pre], s.PreURL, s.PreV, b2s(s.Limited))
 	}
 	return sb.String()
 }
 
-// ---- the loopback server
+// ---- the loopback servers
+
+// remListener: one port of the sequence's server.  While it is closed ("refuse") a socket bound to the port but not
+// listening keeps the port: connections are refused, and no other sequence's server — they run in parallel and ask the
+// kernel for any free port — can be given the port while this sequence believes nobody listens there.
+type remListener struct {
+	srv  *http.Server
+	port int
+	resv int // 0 = none
+	tls  *tls.Config
+}
 
 type remServer struct {
 	mu    sync.Mutex
-	ln    net.Listener
-	srv   *http.Server
-	port  int
+	plain remListener
+	tls   remListener
+	hole  net.Listener // accepts and never answers (the git node's server)
 	state remStep
-	resv  int // while the listener is closed ("refuse"): a socket bound to the port but not listening (0 = none)
+	port  int // = plain.port
 }
 
-func (rs *remServer) handler(w http.ResponseWriter, r *http.Request) {
-	rs.mu.Lock()
-	st := rs.state
-	rs.mu.Unlock()
-	u, owner := remOwner(r)
-	// which node of the step is asked for: the step's own URL (content V+10*Inc, behaviour Server), or —
-	// when the step describes a second node — the other http URL (content V2, behaviour Server2)
-	kind, cn := st.Server, st.c1()
-	if st.Server2 != "" && owner >= 0 && owner != remCu(st.URL) {
-		kind, cn = st.Server2, st.V2
-	}
-	rs.mu.Lock()
-	port := rs.port
-	rs.mu.Unlock()
-	serve := func() {
-		if u < 0 {
-			http.NotFound(w, r)
+// remCert: the self-signed certificate of every sequence's TLS listener (127.0.0.1), made once per harness process; its
+// PEM file is what the task binary gets as SSL_CERT_FILE
+var remCert struct {
+	once sync.Once
+	cfg  *tls.Config
+	file string
+	err  error
+}
+
+func remTLSConfig() (*tls.Config, string, error) {
+	remCert.once.Do(func() {
+		key, err := ecdsa.GenerateKey(elliptic.P256(), rand.Reader)
+		if err != nil {
+			remCert.err = err
 			return
 		}
-		w.Header().Set("Content-Type", "text/yaml")
-		w.WriteHeader(200)
-		if r.Method != "HEAD" {
-			w.Write(remContent(u, cn, port))
-		}
-	}
-	wait := func() {
-		t := time.NewTimer(remStallDelay)
-		defer t.Stop()
-		select {
-		case <-r.Context().Done():
-		case <-t.C:
-		}
-	}
-	switch kind {
-	case "serve":
-		serve()
-	case "404":
-		http.NotFound(w, r)
-	case "500":
-		http.Error(w, "boom", 500)
-	case "get500":
-		if r.Method == "HEAD" {
-			serve()
-		} else {
-			http.Error(w, "boom", 500)
-		}
-	case "ctype":
-		if u < 0 {
-			http.NotFound(w, r)
+		tmpl := &x509.Certificate{SerialNumber: big.NewInt(1), Subject: pkix.Name{CommonName: "verif loopback"},
+			NotBefore: time.Now().Add(-time.Hour), NotAfter: time.Now().Add(48 * time.Hour),
+			KeyUsage: x509.KeyUsageDigitalSignature | x509.KeyUsageCertSign, ExtKeyUsage: []x509.ExtKeyUsage{x509.ExtKeyUsageServerAuth},
+			BasicConstraintsValid: true, IsCA: true, IPAddresses: []net.IP{net.ParseIP("127.0.0.1")}}
+		der, err := x509.CreateCertificate(rand.Reader, tmpl, tmpl, &key.PublicKey, key)
+		if err != nil {
+			remCert.err = err
 			return
 		}
-		w.Header().Set("Content-Type", "application/octet-stream")
-		w.WriteHeader(200)
-		if r.Method != "HEAD" {
-			w.Write(remContent(u, cn, port))
+		base := os.Getenv("VERIF_SCRATCH")
+		if base == "" {
+			base = os.TempDir()
 		}
-	case "stall":
-		wait()
-		serve()
-	case "stallget":
-		if r.Method != "HEAD" {
-			wait()
+		os.MkdirAll(filepath.Join(base, "remote"), 0o755)
+		remCert.file = filepath.Join(base, "remote", fmt.Sprintf("cert-%d.pem", os.Getpid()))
+		if err := os.WriteFile(remCert.file, pem.EncodeToMemory(&pem.Block{Type: "CERTIFICATE", Bytes: der}), 0o644); err != nil {
+			remCert.err = err
+			return
 		}
-		serve()
-	case "reset":
-		if hj, ok := w.(http.Hijacker); ok {
-			if conn, _, err := hj.Hijack(); err == nil {
-				if tc, ok := conn.(*net.TCPConn); ok {
-					tc.SetLinger(0)
+		remCert.cfg = &tls.Config{Certificates: []tls.Certificate{{Certificate: [][]byte{der}, PrivateKey: key}}}
+	})
+	return remCert.cfg, remCert.file, remCert.err
+}
+
+func (rs *remServer) handler(overTLS bool) http.HandlerFunc {
+	return func(w http.ResponseWriter, r *http.Request) {
+		rs.mu.Lock()
+		st := rs.state
+		port, tport := rs.plain.port, rs.tls.port
+		rs.mu.Unlock()
+		u, owner, name := remOwner(r, overTLS)
+		// which node of the step is asked for: the step's own URL (content V+10*Inc, behaviour Server), or —
+		// when the step describes a second node — another URL (content V2, behaviour Server2)
+		kind, cn := st.Server, st.c1()
+		if st.Server2 != "" && owner >= 0 && owner != remCu(st.URL) {
+			kind, cn = st.Server2, st.V2
+		}
+		if st.Server3 != "" { // a tree: A = URL 0, B = URL 1, C = URL 3
+			switch owner {
+			case 1:
+				kind, cn = st.Server2, st.V2+10*st.Inc2
+			case 3:
+				kind, cn = st.Server3, st.V3
+			}
+		}
+		if owner == 7 {
+			switch {
+			case u == 7: // the directory URL itself: never a Taskfile
+				if st.DirHead == "ctype" {
+					w.Header().Set("Content-Type", "application/octet-stream")
+					w.WriteHeader(200)
+					if r.Method != "HEAD" {
+						w.Write([]byte("not a Taskfile\n"))
+					}
+				} else {
+					http.NotFound(w, r)
 				}
-				conn.Close()
+				return
+			case name == st.DirName: // the default name that answers: behaves as the step says
+				u = 7
+			default:
+				http.NotFound(w, r)
 				return
 			}
 		}
-		http.Error(w, "boom", 500)
-	default:
-		http.Error(w, "boom", 500)
+		if u == 6 && r.URL.Path == "/tt/Taskfile.yml" {
+			switch kind {
+			case "redirect":
+				http.Redirect(w, r, fmt.Sprintf("http://127.0.0.1:%d/tr/Taskfile.yml", port), http.StatusFound)
+				return
+			case "redirects":
+				http.Redirect(w, r, fmt.Sprintf("https://127.0.0.1:%d/ts/Taskfile.yml", tport), http.StatusFound)
+				return
+			}
+		}
+		if u == 6 && r.URL.Path != "/tt/Taskfile.yml" { // the target of a redirect: just serves
+			kind = "serve"
+		}
+		serve := func(ctype string) {
+			if u < 0 {
+				http.NotFound(w, r)
+				return
+			}
+			w.Header().Set("Content-Type", ctype)
+			w.WriteHeader(200)
+			if r.Method != "HEAD" {
+				w.Write(remContent(u, cn, port))
+			}
+		}
+		wait := func() {
+			t := time.NewTimer(remStallDelay)
+			defer t.Stop()
+			select {
+			case <-r.Context().Done():
+			case <-t.C:
+			}
+		}
+		switch kind {
+		case "serve", "redirect", "redirects":
+			serve("text/yaml")
+		case "404":
+			http.NotFound(w, r)
+		case "500":
+			http.Error(w, "boom", 500)
+		case "get500":
+			if r.Method == "HEAD" {
+				serve("text/yaml")
+			} else {
+				http.Error(w, "boom", 500)
+			}
+		case "ctype":
+			serve("application/octet-stream")
+		case "stall":
+			wait()
+			serve("text/yaml")
+		case "stallget":
+			if r.Method != "HEAD" {
+				wait()
+			}
+			serve("text/yaml")
+		case "reset":
+			if hj, ok := w.(http.Hijacker); ok {
+				if conn, _, err := hj.Hijack(); err == nil {
+					if tc, ok := conn.(*net.TCPConn); ok {
+						tc.SetLinger(0)
+					}
+					conn.Close()
+					return
+				}
+			}
+			http.Error(w, "boom", 500)
+		default:
+			http.Error(w, "boom", 500)
+		}
 	}
 }
 
-// reserve: bind (without listening) a socket to the server's port.  Connections to it are refused, and no
-// other sequence's server — they run in parallel and ask the kernel for any free port — can be given the
-// port while this sequence believes nobody listens there.
-func (rs *remServer) reserve() {
-	if rs.port == 0 || rs.resv != 0 {
+func (l *remListener) reserve() {
+	if l.port == 0 || l.resv != 0 {
 		return
 	}
 	for i := 0; i < 40; i++ {
@@ -375,8 +653,8 @@ func (rs *remServer) reserve() {
 			return
 		}
 		syscall.SetsockoptInt(fd, syscall.SOL_SOCKET, syscall.SO_REUSEADDR, 1)
-		if err = syscall.Bind(fd, &syscall.SockaddrInet4{Port: rs.port, Addr: [4]byte{127, 0, 0, 1}}); err == nil {
-			rs.resv = fd
+		if err = syscall.Bind(fd, &syscall.SockaddrInet4{Port: l.port, Addr: [4]byte{127, 0, 0, 1}}); err == nil {
+			l.resv = fd
 			return
 		}
 		syscall.Close(fd)
@@ -384,16 +662,16 @@ func (rs *remServer) reserve() {
 	}
 }
 
-func (rs *remServer) release() {
-	if rs.resv != 0 {
-		syscall.Close(rs.resv)
-		rs.resv = 0
+func (l *remListener) release() {
+	if l.resv != 0 {
+		syscall.Close(l.resv)
+		l.resv = 0
 	}
 }
 
-func (rs *remServer) listen() error {
-	rs.release()
-	addr := fmt.Sprintf("127.0.0.1:%d", rs.port)
+func (l *remListener) listen(h http.Handler) error {
+	l.release()
+	addr := fmt.Sprintf("127.0.0.1:%d", l.port)
 	var ln net.Listener
 	var err error
 	for i := 0; i < 40; i++ {
@@ -406,20 +684,79 @@ func (rs *remServer) listen() error {
 	if err != nil {
 		return err
 	}
-	rs.mu.Lock()
-	rs.port = ln.Addr().(*net.TCPAddr).Port
-	rs.mu.Unlock()
-	rs.ln = ln
-	rs.srv = &http.Server{Handler: http.HandlerFunc(rs.handler)}
-	go rs.srv.Serve(ln)
+	l.port = ln.Addr().(*net.TCPAddr).Port
+	// HTTP/1.1 only (a non-nil empty TLSNextProto): "reset" hijacks the connection, which HTTP/2 cannot
+	l.srv = &http.Server{Handler: h, TLSConfig: l.tls, ErrorLog: remQuietLog,
+		TLSNextProto: map[string]func(*http.Server, *tls.Conn, http.Handler){}}
+	if l.tls != nil {
+		go l.srv.ServeTLS(ln, "", "")
+	} else {
+		go l.srv.Serve(ln)
+	}
 	return nil
 }
 
+func (l *remListener) close() {
+	if l.srv != nil {
+		l.srv.Close()
+		l.srv = nil
+		l.reserve()
+	}
+}
+
+func (rs *remServer) listen() error {
+	cfg, _, err := remTLSConfig()
+	if err != nil {
+		return err
+	}
+	rs.mu.Lock()
+	defer rs.mu.Unlock()
+	rs.tls.tls = cfg
+	if err := rs.plain.listen(rs.handler(false)); err != nil {
+		return err
+	}
+	if err := rs.tls.listen(rs.handler(true)); err != nil {
+		return err
+	}
+	rs.port = rs.plain.port
+	if rs.hole == nil {
+		ln, err := net.Listen("tcp", "127.0.0.1:0")
+		if err != nil {
+			return err
+		}
+		rs.hole = ln
+		go func() {
+			var held []net.Conn // accepted, never answered, closed with the listener
+			defer func() {
+				for _, c := range held {
+					c.Close()
+				}
+			}()
+			for {
+				c, err := ln.Accept()
+				if err != nil {
+					return
+				}
+				held = append(held, c)
+			}
+		}()
+	}
+	return nil
+}
+
+func (rs *remServer) listening() bool { return rs.plain.srv != nil }
+
 func (rs *remServer) close() {
-	if rs.srv != nil {
-		rs.srv.Close()
-		rs.srv, rs.ln = nil, nil
-		rs.reserve()
+	rs.plain.close()
+	rs.tls.close()
+}
+
+func (rs *remServer) shutdown() {
+	rs.close()
+	rs.plain.release()
+	rs.tls.release()
+	if rs.hole != nil {
+		rs.hole.Close()
 	}
 }
 
@@ -472,6 +809,51 @@ type remRun struct {
 	srv                     *remServer
 	urls                    [remURLs]string
 	keys                    [remURLs]string // sha256(url): part of every cache file name of that url
+	gitURL                  string
+	certFile                string
+}
+
+// cacheFile: the path of a cache file of URL u (`HTTPNode.CacheKey`: a readable prefix and the SHA-256 of the URL)
+func (rr *remRun) cacheFile(u int, suffix string) string {
+	dir, filename := filepath.Split(rr.urls[u])
+	lastDir := filepath.Base(dir)
+	prefix := filename
+	if len(lastDir) > 1 {
+		prefix = lastDir + "-" + filename
+	}
+	return filepath.Join(rr.cache, "remote", fmt.Sprintf("%s.%s.%s", prefix, rr.keys[u], suffix))
+}
+
+// applyPre: what happens to the cache files of URL s.PreURL before the step
+func (rr *remRun) applyPre(s remStep) error {
+	if s.Pre == "" {
+		return nil
+	}
+	u := s.PreURL
+	os.MkdirAll(filepath.Join(rr.cache, "remote"), 0o755)
+	content := remContent(remCu(u), s.PreV, rr.srv.port)
+	switch s.Pre {
+	case "swap":
+		return os.WriteFile(rr.cacheFile(u, "yaml"), content, 0o644)
+	case "trunc":
+		return os.WriteFile(rr.cacheFile(u, "yaml"), nil, 0o644)
+	case "rm":
+		os.Remove(rr.cacheFile(u, "yaml"))
+		return nil
+	case "torn1", "torn2", "torn3":
+		if err := os.WriteFile(rr.cacheFile(u, "checksum"), []byte(sha256hex(content)), 0o644); err != nil {
+			return err
+		}
+		if s.Pre != "torn1" {
+			if err := os.WriteFile(rr.cacheFile(u, "timestamp"), []byte(time.Now().UTC().Format(time.RFC3339)), 0o644); err != nil {
+				return err
+			}
+		}
+		if s.Pre == "torn3" {
+			return os.WriteFile(rr.cacheFile(u, "location"), []byte(rr.urls[u]), 0o644)
+		}
+	}
+	return nil
 }
 
 type errInconclusive struct{ why string }
@@ -512,9 +894,14 @@ func (pr *promptResponder) feed(all string) {
 func (rr *remRun) runCLI(s remStep, chain bool) (exit int, out string, err error) {
 	bin := os.Getenv("VERIF_TASK_BIN")
 	var args []string
-	if s.Via == "include" {
+	switch {
+	case s.URL == remGitURL:
+		args = append(args, "-t", rr.gitURL, "probe")
+	case s.URL == remGitProtoURL:
+		args = append(args, "-t", strings.Replace(rr.gitURL, "http://", "git://", 1), "probe")
+	case s.Via == "include":
 		args = append(args, "-t", fmt.Sprintf("inc%d.yml", s.URL), "r:probe")
-	} else {
+	default:
 		args = append(args, "-t", rr.urls[s.URL], "probe")
 	}
 	args = append(args, "-v")
@@ -545,12 +932,19 @@ func (rr *remRun) runCLI(s remStep, chain bool) (exit int, out string, err error
 			args = append(args, "--timeout", "300ms")
 		}
 	}
-	ctx, cancel := context.WithTimeout(context.Background(), 40*time.Second)
+	limit := 40 * time.Second
+	if remIsGit(s.URL) { // a git node that ignores --timeout never returns: that is a verdict, not a flake
+		limit = 5 * time.Second
+	}
+	ctx, cancel := context.WithTimeout(context.Background(), limit)
 	defer cancel()
 	cmd := exec.CommandContext(ctx, bin, args...) // cancelled by Process.Kill (SIGKILL)
+	if s.Limited {
+		cmd = exec.CommandContext(ctx, "/bin/sh", append([]string{"-c", `ulimit -f 1 && exec "$0" "$@"`, bin}, args...)...)
+	}
 	cmd.Dir = rr.proj
 	cmd.Env = []string{"PATH=" + os.Getenv("PATH"), "HOME=" + filepath.Join(rr.dir, "home"), "NO_COLOR=1",
-		"TASK_REMOTE_DIR=" + rr.cache, "VERIF_TRACE=" + rr.trace}
+		"TASK_REMOTE_DIR=" + rr.cache, "VERIF_TRACE=" + rr.trace, "SSL_CERT_FILE=" + rr.certFile}
 	if !s.NoExp {
 		cmd.Env = append(cmd.Env, "TASK_X_REMOTE_TASKFILES=1")
 	}
@@ -578,11 +972,17 @@ func (rr *remRun) runCLI(s remStep, chain bool) (exit int, out string, err error
 			return 0, "", e
 		}
 		sl.Close()
-		pr := &promptResponder{master: m, texts: map[string]string{rr.urls[s.URL]: s.Text}}
+		pr := &promptResponder{master: m, texts: map[string]string{}}
+		if s.URL < remURLs {
+			pr.texts[rr.urls[s.URL]] = s.Text
+		}
 		for _, o := range remHTTP {
 			if o != remCu(s.URL) {
 				pr.texts[rr.urls[o]] = s.Text2
 			}
+		}
+		if s.Server3 != "" { // a tree: C's prompt has its own answer
+			pr.texts[rr.urls[3]] = s.Text3
 		}
 		go func() {
 			b := make([]byte, 4096)
@@ -636,6 +1036,9 @@ func (rr *remRun) runCLI(s remStep, chain bool) (exit int, out string, err error
 		<-done
 	}
 	if ctx.Err() != nil {
+		if remIsGit(s.URL) {
+			return -1, "", nil
+		}
 		return 0, "", errInconclusive{"task binary hung (killed)"}
 	}
 	mu.Lock()
@@ -680,12 +1083,13 @@ func (rr *remRun) age(hours int) {
 	}
 }
 
-// cacheView: per URL `<content version|->,<checksum version|->,<timestamp present>`; foreign files are listed
+// cacheView: per URL `<content number|->,<checksum number|->,<timestamp present>` and, when the stored location is
+// another URL than the entry's own (a default name under the directory URL), `@<its model id>`; foreign files are listed
 func (rr *remRun) cacheView() string {
-	type ent struct{ c, s, t string }
+	type ent struct{ c, s, t, l string }
 	v := [remURLs]ent{}
 	for i := range v {
-		v[i] = ent{"-", "-", "0"}
+		v[i] = ent{"-", "-", "0", ""}
 	}
 	var unknown []string
 	ents, _ := os.ReadDir(filepath.Join(rr.cache, "remote"))
@@ -702,55 +1106,68 @@ func (rr *remRun) cacheView() string {
 			continue
 		}
 		b, _ := os.ReadFile(filepath.Join(rr.cache, "remote", name))
-		cu := u
-		if cu == 2 {
-			cu = 0
-		}
-		switch {
-		case strings.HasSuffix(name, ".yaml"):
-			v[u].c = "?"
+		cu := remCu(u)
+		which := func(match func(content []byte) bool) string {
+			out := "?"
 			for _, uu := range remHTTP {
-				for k := 1; k <= 69; k++ {
-					if k%10 != 0 && bytes.Equal(b, remContent(uu, k, rr.srv.port)) {
+				for k := 1; k <= remMaxContent; k++ {
+					if k%10 != 0 && match(remContent(uu, k, rr.srv.port)) {
 						if uu == cu {
-							v[u].c = fmt.Sprint(k)
-						} else { // the content of another URL sits in this URL's cache file
-							v[u].c = fmt.Sprintf("!u%dv%d", uu, k)
+							out = fmt.Sprint(k)
+						} else { // something of another URL sits in this URL's cache file
+							out = fmt.Sprintf("!u%dv%d", uu, k)
 						}
 					}
 				}
+			}
+			return out
+		}
+		switch {
+		case strings.HasSuffix(name, ".yaml"):
+			if len(b) <= 512 && bytes.HasPrefix([]byte(remPad), b) { // empty, or cut off by the file-size limit: not a Taskfile
+				v[u].c = "0"
+			} else {
+				v[u].c = which(func(c []byte) bool { return bytes.Equal(b, c) })
 			}
 		case strings.HasSuffix(name, ".checksum"):
 			if len(b) == 0 {
 				break
 			}
-			v[u].s = "?"
-			for _, uu := range remHTTP {
-				for k := 1; k <= 69; k++ {
-					if k%10 != 0 && string(b) == sha256hex(remContent(uu, k, rr.srv.port)) {
-						if uu == cu {
-							v[u].s = fmt.Sprint(k)
-						} else {
-							v[u].s = fmt.Sprintf("!u%dv%d", uu, k)
-						}
-					}
-				}
-			}
+			v[u].s = which(func(c []byte) bool { return string(b) == sha256hex(c) })
 		case strings.HasSuffix(name, ".timestamp"):
 			v[u].t = "1"
+		case strings.HasSuffix(name, ".location"):
+			switch loc := string(b); {
+			case loc == rr.urls[u]:
+			case u == 7 && strings.HasPrefix(loc, rr.urls[7]+"/"):
+				v[u].l = "@?"
+				for j, n := range remDirNames {
+					if loc == rr.urls[7]+"/"+n {
+						v[u].l = fmt.Sprintf("@%d", 10+j)
+					}
+				}
+			default:
+				v[u].l = "@?"
+			}
 		default:
 			unknown = append(unknown, "unknown:"+name)
 		}
 	}
 	parts := make([]string, 0, remURLs+len(unknown))
 	for _, e := range v {
-		parts = append(parts, e.c+","+e.s+","+e.t)
+		parts = append(parts, e.c+","+e.s+","+e.t+e.l)
 	}
 	sort.Strings(unknown)
 	return strings.Join(append(parts, unknown...), " ")
 }
 
-func remEvalOnce(d remCase, work string) (impl string, err error) {
+// remEvalOnce: one sequence on the real binary; picks = the exit status of every step
+func remEvalOnce(d remCase, work string) (impl string, picks []int, err error) {
+	impl, err = remEvalSeq(d, work, &picks)
+	return
+}
+
+func remEvalSeq(d remCase, work string, picks *[]int) (impl string, err error) {
 	if os.Getenv("VERIF_TASK_BIN") == "" {
 		return "", fmt.Errorf("VERIF_TASK_BIN not set")
 	}
@@ -763,15 +1180,21 @@ func remEvalOnce(d remCase, work string) (impl string, err error) {
 	defer os.RemoveAll(work)
 	rr.srv = &remServer{}
 	if e := rr.srv.listen(); e != nil {
+		rr.srv.shutdown()
 		return "", errInconclusive{"listen: " + e.Error()}
 	}
-	defer func() { rr.srv.close(); rr.srv.release() }()
+	defer rr.srv.shutdown()
+	_, rr.certFile, _ = remTLSConfig()
+	rr.gitURL = fmt.Sprintf("http://127.0.0.1:%d/r.git//Taskfile.yml", rr.srv.hole.Addr().(*net.TCPAddr).Port)
 	for u := 0; u < remURLs; u++ {
-		scheme := "http"
+		scheme, port := "http", rr.srv.plain.port
 		if u == 2 {
 			scheme = "https"
 		}
-		rr.urls[u] = fmt.Sprintf("%s://127.0.0.1:%d%s", scheme, rr.srv.port, remPaths[u])
+		if u == 6 {
+			scheme, port = "https", rr.srv.tls.port
+		}
+		rr.urls[u] = fmt.Sprintf("%s://127.0.0.1:%d%s", scheme, port, remPaths[u])
 		rr.keys[u] = sha256hex([]byte(rr.urls[u]))
 		inc := fmt.Sprintf("version: '3'\nincludes:\n  r: %s\n", rr.urls[u])
 		if e := os.WriteFile(filepath.Join(rr.proj, fmt.Sprintf("inc%d.yml", u)), []byte(inc), 0o644); e != nil {
@@ -779,11 +1202,30 @@ func remEvalOnce(d remCase, work string) (impl string, err error) {
 		}
 	}
 	approved := map[[2]int]bool{} // (url, version) offered under --yes or an accepted prompt so far
+	offers := func(u int, kind string, patient bool) bool {
+		switch kind {
+		case "serve", "redirect", "redirects":
+			return true
+		case "ctype":
+			return u == 7
+		case "stall", "stallget":
+			return patient
+		}
+		return false
+	}
 	var outs []string
 	for i, s := range d.Steps {
 		s = s.norm()
+		// first the damage / the killed invocation, then the ageing (the model's events come before the step, whose clock
+		// tick is the ageing: a timestamp a killed invocation wrote is aged with the others)
+		if e := rr.applyPre(s); e != nil {
+			return "", e
+		}
 		if s.Age > 0 {
 			rr.age(s.Age)
+		}
+		if strings.HasPrefix(s.Pre, "torn") { // stands for an invocation that approved this version and was killed
+			approved[[2]int{s.PreURL, s.PreV}] = true
 		}
 		// server state for this step
 		if s.Server == "refuse" {
@@ -792,19 +1234,20 @@ func remEvalOnce(d remCase, work string) (impl string, err error) {
 			rr.srv.mu.Lock()
 			rr.srv.state = s
 			rr.srv.mu.Unlock()
-			if rr.srv.srv == nil {
+			if !rr.srv.listening() {
 				if e := rr.srv.listen(); e != nil {
 					return "", errInconclusive{"re-listen on the same port: " + e.Error()}
 				}
 			}
 		}
 		os.Remove(rr.trace)
-		exit, out, e := rr.runCLI(s, d.Chain)
+		exit, out, e := rr.runCLI(s, d.Chain || d.Tree)
 		if e != nil {
 			return "", e
 		}
+		*picks = append(*picks, exit)
 		// a timeout although the server was not stalling: the machine was too slow for --timeout 300ms
-		offered := s.Server == "serve" || (s.stalls() && s.Patient)
+		offered := offers(s.URL, s.Server, s.Patient)
 		if !((s.stalls() || s.stalls2()) && !s.Patient) && (exit == 108 || strings.Contains(out, "deadline exceeded")) {
 			return "", errInconclusive{fmt.Sprintf("spurious timeout: step %d", i)}
 		}
@@ -815,67 +1258,91 @@ func remEvalOnce(d remCase, work string) (impl string, err error) {
 		// the same for one node of a step in which the *other* node stalls: a fetch of a serving URL was
 		// begun ("downloading remote file: U") and did not end in "found remote file at U"
 		lost := func(u string) bool {
-			return strings.Contains(out, "downloading remote file: "+u+"\n") && !strings.Contains(out, "found remote file at \""+u+"\"")
+			return strings.Contains(out, "downloading remote file: "+u+"\n") && !strings.Contains(out, "found remote file at \""+u+"\"") &&
+				!strings.Contains(out, "insecure connection")
 		}
-		if d.Chain && s.URL != 2 {
+		if d.Chain && s.URL != 2 && s.URL < remURLs {
 			if offered && lost(rr.urls[s.URL]) {
 				return "", errInconclusive{fmt.Sprintf("spurious timeout: step %d node 1", i)}
 			}
 			spent := s.stalls() && !s.Patient
 			for _, o := range remHTTP {
-				if o != cu && !spent && (s.Server2 == "serve" || (s.stalls2() && s.Patient)) && lost(rr.urls[o]) {
+				if o != cu && !spent && offers(o, s.Server2, s.Patient) && lost(rr.urls[o]) {
 					return "", errInconclusive{fmt.Sprintf("spurious timeout: step %d node 2", i)}
 				}
 			}
 		}
-		if s.Server2 != "" && (s.Server2 == "serve" || (s.stalls2() && s.Patient)) && (s.Yes || s.Answer2 == "accept") {
+		if !d.Tree && s.Server2 != "" && offers(0, s.Server2, s.Patient) && (s.Yes || s.Answer2 == "accept") {
 			for _, o := range remHTTP { // whichever other URL the step's content includes
 				if o != cu {
 					approved[[2]int{o, s.V2}] = true
 				}
 			}
 		}
+		if d.Tree {
+			spentA := s.stalls() && !s.Patient
+			stallB := (s.Server2 == "stall" || s.Server2 == "stallget") && !s.Patient
+			if !spentA && offers(1, s.Server2, s.Patient) && lost(rr.urls[1]) {
+				return "", errInconclusive{fmt.Sprintf("spurious timeout: step %d node B", i)}
+			}
+			if !spentA && !(s.Inc == 4 && stallB) && offers(3, s.Server3, s.Patient) && lost(rr.urls[3]) {
+				return "", errInconclusive{fmt.Sprintf("spurious timeout: step %d node C", i)}
+			}
+			if offers(1, s.Server2, s.Patient) && (s.Yes || s.Answer2 == "accept") {
+				approved[[2]int{1, s.V2 + 10*s.Inc2}] = true
+			}
+			if offers(3, s.Server3, s.Patient) && (s.Yes || s.Answer3 == "accept") {
+				approved[[2]int{3, s.V3}] = true
+			}
+		}
 		var ran []string
 		if b, e := os.ReadFile(rr.trace); e == nil {
 			ran = strings.Fields(string(b))
 		}
-		res := ""
+		// the trace in the model's syntax: content numbers; a marker of a URL that should not have run here stays as it is
 		violation := false
+		toks := make([]string, len(ran))
+		first := -1
 		for j, m := range ran {
 			var mu, mv int
 			n, _ := fmt.Sscanf(m, "u%dv%d", &mu, &mv)
+			toks[j] = "?" + m
 			switch {
-			case n == 2 && j == 0 && mu == cu && approved[[2]int{s.URL, mv}]:
-			case n == 2 && j == 1 && d.Chain && mu != cu && approved[[2]int{mu, mv}]: // the included Taskfile's probe
+			case d.Tree: // every node of the tree by content number and URL
+				if n == 2 && (j > 0 || mu == 0) {
+					toks[j] = fmt.Sprintf("%du%d", mv, mu)
+				}
+				if n != 2 || !approved[[2]int{mu, mv}] {
+					violation = true
+				}
+			case n == 2 && j == 0 && mu == cu:
+				toks[j], first = fmt.Sprint(mv), mv
+				if !approved[[2]int{s.URL, mv}] {
+					violation = true
+				}
+			case n == 2 && j == 1 && d.Chain && mu != cu: // the included Taskfile's probe
+				if first >= 0 && mu == remIncTarget(first) {
+					toks[j] = fmt.Sprint(mv)
+				}
+				if !approved[[2]int{mu, mv}] {
+					violation = true
+				}
 			default:
 				violation = true
 			}
 		}
+		res := ""
 		switch {
-		case exit == 0 && len(ran) == 1:
-			var mu, mv int
-			if n, _ := fmt.Sscanf(ran[0], "u%dv%d", &mu, &mv); n == 2 && mu == cu {
-				res = fmt.Sprintf("run:%d", mv)
-			} else {
-				res = "run:?" + ran[0]
-			}
-		case exit == 0 && len(ran) == 2 && d.Chain:
-			var mu, mv, nu, nv int
-			n1, _ := fmt.Sscanf(ran[0], "u%dv%d", &mu, &mv)
-			n2, _ := fmt.Sscanf(ran[1], "u%dv%d", &nu, &nv)
-			if n1 == 2 && n2 == 2 && mu == cu && nu != cu && nu == remIncTarget(mv) {
-				res = fmt.Sprintf("run:%d+%d", mv, nv)
-			} else {
-				res = "run:?" + strings.Join(ran, "+")
-			}
-		case exit == 0 && len(ran) == 0 && s.Clear:
+		case exit < 0:
+			res = "hang"
+		case exit == 0 && len(ran) == 0:
 			res = "cleared"
 		case exit == 0:
-			res = "ok-ran:" + strings.Join(ran, "+")
+			res = "run:" + strings.Join(toks, "+")
 		case len(ran) == 0:
 			res = fmt.Sprintf("err:%d", exit)
 		default:
-			res = fmt.Sprintf("err:%d+ran:%s", exit, strings.Join(ran, "+"))
+			res = fmt.Sprintf("err:%d+ran:%s", exit, strings.Join(toks, "+"))
 		}
 		line := res + " " + rr.cacheView()
 		if violation {
@@ -893,7 +1360,7 @@ var remSeq struct {
 }
 
 func evalRemote(d remCase) (string, string) {
-	cl := remCaseLine(d)
+	cl := remCaseLine(d, nil)
 	base := os.Getenv("VERIF_SCRATCH")
 	if base == "" {
 		base = os.TempDir()
@@ -904,9 +1371,9 @@ func evalRemote(d remCase) (string, string) {
 		remSeq.n++
 		work := filepath.Join(base, "remote", fmt.Sprintf("s%d", remSeq.n))
 		remSeq.Unlock()
-		impl, err := remEvalOnce(d, work)
+		impl, picks, err := remEvalOnce(d, work)
 		if err == nil {
-			return cl, impl
+			return remCaseLine(d, picks), impl
 		}
 		last = err
 		if _, ok := err.(errInconclusive); !ok {
@@ -931,23 +1398,34 @@ func (c *Ctx) remStep(prev *remStep, pty bool) remStep {
 		s.Via = "include"
 	}
 	switch x := r.Intn(100); {
-	case x < 50:
+	case x < 34:
 		s.URL = 0
-	case x < 64: // same host and path as URL 0, another query
+	case x < 44: // same host and path as URL 0, another query
 		s.URL = 3
-	case x < 70: // … another letter case of the path
+	case x < 49: // … another letter case of the path
 		s.URL = 4
-	case x < 76: // … a doubled slash in the path
+	case x < 54: // … a doubled slash in the path
 		s.URL = 5
-	case x < 94:
+	case x < 66:
 		s.URL = 1
-	default:
+	case x < 70:
 		s.URL = 2
+	case x < 84: // https on the TLS listener: serves, or redirects to plain http / to https
+		s.URL = 6
+	default: // directory-style URL
+		s.URL = 7
+		s.DirName = r.Intn(len(remDirNames))
+		if r.Intn(3) == 0 {
+			s.DirHead = "ctype"
+		}
 	}
 	if r.Intn(100) < 15 {
 		s.Age = 2
 	}
 	s.Insecure = r.Intn(100) < 88
+	if s.URL == 6 { // https needs no --insecure; a redirect to plain http does
+		s.Insecure = r.Intn(100) < 45
+	}
 	s.Yes = r.Intn(100) < 30
 	s.NoExp = r.Intn(100) < 4
 	dl, off := r.Intn(100) < 22, r.Intn(100) < 22
@@ -990,10 +1468,23 @@ func (c *Ctx) remStep(prev *remStep, pty bool) remStep {
 	default:
 		s.Server = "stallget"
 	}
+	if s.URL == 6 && r.Intn(100) < 55 {
+		s.Server = []string{"redirect", "redirect", "redirects"}[r.Intn(3)]
+	}
 	if s.stalls() {
 		s.Patient = r.Intn(100) < 25
 	} else {
 		s.Patient = r.Intn(100) < 10
+	}
+	s.Limited = r.Intn(100) < 7
+	// now and then the cache is torn or damaged before the step: mostly the step's own entry
+	if r.Intn(100) < 14 {
+		s.Pre = []string{"swap", "swap", "trunc", "rm", "torn1", "torn1", "torn2", "torn3"}[r.Intn(8)]
+		s.PreURL = s.URL
+		if r.Intn(100) < 15 {
+			s.PreURL = []int{0, 1, 3, 6, 7}[r.Intn(5)]
+		}
+		s.PreV = 1 + r.Intn(3)
 	}
 	if pty {
 		switch x := r.Intn(100); {
@@ -1046,6 +1537,29 @@ func (c *Ctx) remChainStep(prev *remStep, pty bool, au, bu int, stallBudget *int
 		// chain step may serve differently from the step's own URL)
 		s.URL = []int{0, 1, 3, 4}[r.Intn(4)]
 	}
+	if au == 7 && s.URL != au && s.URL != bu { // nothing but A and B under /dd
+		s.URL = bu
+	}
+	s.Insecure = r.Intn(100) < 88
+	s.DirName, s.DirHead = 0, ""
+	if s.URL == 7 {
+		s.DirName = r.Intn(len(remDirNames))
+		if r.Intn(3) == 0 {
+			s.DirHead = "ctype"
+		}
+	}
+	if s.Server == "redirect" || s.Server == "redirects" {
+		s.Server = "serve"
+	}
+	if s.Pre != "" { // damage: A's or B's entry; B is always served plain content
+		s.PreURL = au
+		if r.Intn(100) < 40 {
+			s.PreURL = bu
+			s.PreV = 1 + r.Intn(3)
+		} else if s.Pre == "swap" || strings.HasPrefix(s.Pre, "torn") {
+			s.PreV = 1 + r.Intn(3) + 10*remIncFor(bu, r.Intn(2) == 1) // a version of A that includes B, too
+		}
+	}
 	s.Inc = 0
 	if s.URL == au {
 		switch x := r.Intn(100); {
@@ -1094,6 +1608,80 @@ func (c *Ctx) remChainStep(prev *remStep, pty bool, au, bu int, stallBudget *int
 	return s.norm()
 }
 
+// remTreeStep: a step of a tree sequence (A = URL 0, B = URL 1, C = URL 3); shape 9 = A includes B and C, 4 = A includes B,
+// which includes C.  The three servers behave independently (failures are biased towards ONE node, so that most failing
+// loads have one failing node; when several fail the model is told which error the binary reported).
+func (c *Ctx) remTreeStep(prev *remStep, pty bool, shape int, stallBudget *int) remStep {
+	r := c.Rng
+	s := c.remStep(prev, pty)
+	s.URL, s.DirName, s.DirHead, s.Pre, s.PreURL, s.PreV = 0, 0, "", "", 0, 0
+	s.Insecure = r.Intn(100) < 90
+	s.Inc = shape
+	s.Inc2 = 0
+	if shape == 4 && r.Intn(100) < 80 {
+		s.Inc2 = 6
+	}
+	if r.Intn(100) < 6 { // A includes nothing / itself
+		s.Inc = []int{0, 3}[r.Intn(2)]
+	}
+	if prev != nil && r.Intn(100) < 60 {
+		s.V, s.Inc, s.Inc2 = prev.V, prev.Inc, prev.Inc2
+	}
+	if s.Server == "redirect" || s.Server == "redirects" || r.Intn(100) < 55 {
+		s.Server = "serve"
+	}
+	s.Server2, s.Server3 = "serve", "serve"
+	switch x := r.Intn(100); {
+	case x < 30:
+		s.Server2 = remServerKind(r.Intn(100))
+	case x < 60:
+		s.Server3 = remServerKind(r.Intn(100))
+	case x < 70:
+		s.Server2, s.Server3 = remServerKind(r.Intn(100)), remServerKind(r.Intn(100))
+	}
+	s.V2, s.V3 = 1+r.Intn(3), 1+r.Intn(3)
+	if prev != nil && r.Intn(100) < 65 {
+		s.V2, s.V3 = prev.V2, prev.V3
+	}
+	if r.Intn(100) < 10 { // damage to one of the three entries
+		s.Pre = []string{"swap", "trunc", "rm", "torn1"}[r.Intn(4)]
+		s.PreURL = []int{0, 1, 3}[r.Intn(3)]
+		s.PreV = 1 + r.Intn(3)
+		if s.PreURL == 0 {
+			s.PreV += 10 * shape
+		}
+	}
+	if s.stalls() || s.stalls2() {
+		s.Patient = r.Intn(100) < 20
+		if !s.Patient && !s.NoExp {
+			if *stallBudget <= 0 {
+				if s.stalls() {
+					s.Server = "serve"
+				}
+				if s.Server2 == "stall" || s.Server2 == "stallget" {
+					s.Server2 = "serve"
+				}
+				if s.Server3 == "stall" || s.Server3 == "stallget" {
+					s.Server3 = "serve"
+				}
+			} else {
+				*stallBudget--
+			}
+		}
+	}
+	if s.Answer != "none" {
+		pick := func() (string, string) {
+			if r.Intn(100) < 60 {
+				return "accept", []string{"y", "yes", "Y", "YES", " y "}[r.Intn(5)]
+			}
+			return "decline", []string{"n", "", "no", "x", "yes please", "N"}[r.Intn(6)]
+		}
+		s.Answer2, s.Text2 = pick()
+		s.Answer3, s.Text3 = pick()
+	}
+	return s.norm()
+}
+
 func runRemote(c *Ctx) {
 	if c.Replay(func(raw []byte) (string, string) {
 		var d remCase
@@ -1135,13 +1723,15 @@ func runRemote(c *Ctx) {
 		// A and B: the two paths, or two URLs of one path that differ only in the query
 		au, bu := 0, 1
 		switch x := c.Rng.Intn(100); {
-		case x < 45:
-		case x < 60:
+		case x < 30:
+		case x < 40:
 			au, bu = 1, 0
-		case x < 82:
+		case x < 55:
 			au, bu = 0, 3
-		default:
+		case x < 65:
 			au, bu = 3, 0
+		default: // A is the directory-style URL /dd, B its sibling /dd/inc.yml (`./inc.yml` or an absolute reference)
+			au, bu = 7, 8
 		}
 		var prev *remStep
 		for j := 0; j < k; j++ {
@@ -1159,6 +1749,55 @@ func runRemote(c *Ctx) {
 			}
 			d.Steps = append(d.Steps, s)
 			prev = &d.Steps[len(d.Steps)-1]
+		}
+		cases = append(cases, d)
+	}
+	// trees: A = URL 0 includes B = URL 1 and C = URL 3 (siblings: two goroutines of one errgroup, prompts serialised by
+	// promptMutex), or A includes B and B includes C (a chain of three under the one deadline)
+	nTree := c.Pick(120, 1500)
+	for i := 0; i < nTree; i++ {
+		k := 2 + c.Rng.Intn(3)
+		d := remCase{Tree: true}
+		shape := 9 // siblings
+		if c.Rng.Intn(100) < 45 {
+			shape = 4 // chain of three
+		}
+		var prev *remStep
+		for j := 0; j < k; j++ {
+			s := c.remTreeStep(prev, pty, shape, &stallBudget)
+			if j == 0 && c.Rng.Intn(100) < 70 { // most histories start by getting approved copies of all three
+				wasStall := (s.stalls() || s.stalls2()) && !s.Patient && !s.NoExp
+				s.Server, s.Server2, s.Server3, s.Yes, s.Insecure, s.NoExp, s.Offline, s.Clear, s.Patient = "serve", "serve", "serve", true, true, false, false, false, false
+				if wasStall {
+					stallBudget++
+				}
+				s.Inc = shape
+				if shape == 4 {
+					s.Inc2 = 6
+				}
+				s = s.norm()
+			}
+			d.Steps = append(d.Steps, s)
+			prev = &d.Steps[len(d.Steps)-1]
+		}
+		cases = append(cases, d)
+	}
+	// git nodes: the harness has no git server; what can be exercised offline is a server that accepts the connection
+	// and never answers — under --timeout 300ms that is 108 (no cache), and nothing else: the binary must come back
+	nGit := c.Pick(10, 60)
+	for i := 0; i < nGit; i++ {
+		var d remCase
+		k := 1 + c.Rng.Intn(2)
+		for j := 0; j < k; j++ {
+			s := remStep{URL: remGitURL, Via: "root", Server: "stall", V: 1, Answer: "none", ExpiryOmit: true}
+			if c.Rng.Intn(100) < 45 { // the plaintext git protocol
+				s.URL = remGitProtoURL
+			}
+			s.Insecure = c.Rng.Intn(100) < 65
+			s.Yes = c.Rng.Intn(2) == 0
+			s.Offline = c.Rng.Intn(100) < 15
+			s.NoExp = c.Rng.Intn(100) < 5
+			d.Steps = append(d.Steps, s.norm())
 		}
 		cases = append(cases, d)
 	}
@@ -1190,6 +1829,42 @@ func runRemote(c *Ctx) {
 			c.Hit("answer:" + s.Answer)
 			c.Hit("via:" + s.Via)
 			c.Hit(fmt.Sprintf("url:%d", s.URL))
+			if s.Limited {
+				c.Hit("limited")
+				if j < len(steps) && strings.HasPrefix(steps[j], "err:1 ") {
+					c.Hit("limited:yaml-write-failed")
+				}
+			}
+			if s.Pre != "" {
+				c.Hit("pre:" + s.Pre)
+				if s.PreURL != s.URL {
+					c.Hit("pre:other-url")
+				}
+			}
+			if s.URL == 7 {
+				c.Hit(fmt.Sprintf("dir:name-%d", s.DirName))
+				c.Hit("dir:head-" + map[string]string{"": "404", "ctype": "ctype"}[s.DirHead])
+			}
+			if s.URL == 6 && strings.HasPrefix(s.Server, "redirect") {
+				c.Hit("tls:" + s.Server + map[bool]string{true: "-insecure", false: "-secure"}[s.Insecure])
+			}
+			if d.Tree {
+				c.Hit("tree:step")
+				c.Hit(fmt.Sprintf("tree:shape-%d-%d", s.Inc, s.Inc2))
+				c.Hit("tree:serverB:" + s.Server2)
+				c.Hit("tree:serverC:" + s.Server3)
+				if j < len(steps) {
+					r := strings.SplitN(steps[j], " ", 2)[0]
+					switch n := strings.Count(r, "+"); {
+					case strings.HasPrefix(r, "run:") && n == 2 && s.Inc == 9:
+						c.Hit("tree:siblings-ran")
+					case strings.HasPrefix(r, "run:") && n == 2:
+						c.Hit("tree:chain-of-three-ran")
+					case strings.HasPrefix(r, "err:"):
+						c.Hit("tree:" + r)
+					}
+				}
+			}
 			if d.Chain {
 				c.Hit("chain:step")
 				c.Hit("chain:server2:" + s.Server2)
